@@ -16,6 +16,6 @@ cargo nextest run --workspace --no-fail-fast --tool-config-file pb:/w/lib/nextes
 echo "== demo without the change"
 git diff -- src components > $OUT/.confirm.patch
 git apply -R $OUT/.confirm.patch
-cargo test --offline --test $T 2>&1 | grep -E "^test result|passed|failed" | head -3
+cargo test --offline ${SEED_FEATURES:+--features $SEED_FEATURES} --test $T 2>&1 | grep -E "^test result|passed|failed" | head -3
 git apply $OUT/.confirm.patch
 git diff --stat -- src components | tail -1
